@@ -34,6 +34,8 @@ class Finding:
         if t is not None:
             sig["op"] = t.op or "none"
             sig["fin"] = t.fin_plan
+            if t.fin_plan == "panic" and t.pk in LOCK_HOLDING:
+                sig["panic_holds"] = "print lock"
             if self.rule in ("result_not_dropped", "join_wrong_value"):
                 sig["ty"] = t.ty
         sig["mode"] = self.run.mode
@@ -45,7 +47,7 @@ class Finding:
             return "%s in run %s (process level: %s)" % (self.rule, self.run.name, self.extra)
         return "%s: thread k=%d (result type %s, closure %s, handle %s%s%s) in run %s, rejected at abstract event %d" % (
             self.rule, t.k, t.ty, "panics" if t.fin_plan == "panic" else "returns", t.op or "kept",
-            ", stray FUTEX_WAKE delivered" if t.wake else "",
+            (", panic " + PANIC_KINDS.get(t.pk, "?") if t.fin_plan == "panic" and t.pk else "") + (", stray FUTEX_WAKE delivered" if t.wake else ""),
             ", injected " + str(self.run.inject) if self.run.inject else "", self.run.name, self.at)
 
     def replay(self):
@@ -249,6 +251,38 @@ def directed_stray(chk, col, bindir, tier, release=False, tag=""):
     o, b, info = col.add(r, "directed")
     col.flush("directed" + tag)
     return info
+
+
+PANIC_KINDS = {0: "bare panic!", 1: "inside eprintln! arguments (stderr lock held)", 2: "inside println! formatting (stdout lock held)",
+               3: "holding a tiny_std Mutex guard", 4: "inside Drop of a local", 5: "unwrap on None", 6: "slice index out of bounds",
+               7: "arithmetic overflow", 8: "long formatted message", 9: "after the result was partially built",
+               10: "inside dbg! formatting (stderr lock held)"}
+LOCK_HOLDING = (1, 2, 10)
+
+
+def panic_kinds(chk, col, bindir, tier, release=False, tag=""):
+    """Closures that panic in different ways and while holding different things: the thread must
+    leave all the same and join must return None.  A panicking thread never releases what it holds
+    (no unwinding): the kinds that hold one of tiny-std's process-wide print locks get a process each."""
+    script = ["set watchdog=2500", "baseline"]
+    for pk in sorted(PANIC_KINDS):
+        if pk in LOCK_HOLDING:
+            continue
+        script.append("one ty=u128 fin=panic op=join pk=%d" % pk)
+        script.append("one ty=vec fin=panic op=drop pk=%d hdelay=%d" % (pk, 0 if pk % 2 else 2000))
+    script.append("quiesce")
+    r = T.run_probe(chk, bindir, "panic-kinds" + tag, script, strace=False, timeout=120)
+    r.release = release
+    col.add(r, "free")
+    for pk in LOCK_HOLDING:
+        for op in (("join",) if tier == "quick" else ("join", "drop")):
+            script = ["set watchdog=2500", "baseline", "one ty=u8 fin=ret op=join",
+                      "one ty=arr fin=panic op=%s pk=%d" % (op, pk),
+                      "one ty=dv fin=ret op=join", "quiesce"]
+            r = T.run_probe(chk, bindir, "panic-kind-%d-%s%s" % (pk, op, tag), script, strace=False, timeout=60)
+            r.release = release
+            col.add(r, "free")
+    col.flush("panic" + tag)
 
 
 def explore_handshake(chk, col, bindir, tier, release=False, tag=""):
